@@ -47,3 +47,105 @@ Proof. unfold nlen. rewrite skipn_length. lia. Qed.
 
 Lemma length_skipn_lt {A} n (s : list A) : (0 < n)%nat -> s <> [] -> (length (skipn n s) < length s)%nat.
 Proof. intros Hn Hs. rewrite skipn_length. destruct s; [congruence|cbn [length]; lia]. Qed.
+
+(* ================================================================== facts used by the compressor proofs *)
+
+Lemma firstn_succ_nth {A} (x : list A) i b :
+  nth_error x i = Some b -> firstn (S i) x = firstn i x ++ [b].
+Proof.
+  revert i. induction x as [|a t IH]; intros i H.
+  - destruct i; discriminate.
+  - destruct i as [|i].
+    + injection H as <-. reflexivity.
+    + cbn [firstn app]. f_equal. apply IH. exact H.
+Qed.
+
+Lemma nth_error_firstn_lt {A} (x : list A) i j : (j < i)%nat -> nth_error (firstn i x) j = nth_error x j.
+Proof.
+  revert i j. induction x as [|a t IH]; intros i j H.
+  - rewrite firstn_nil. reflexivity.
+  - destruct i; [lia|]. destruct j; [reflexivity|]. cbn [firstn nth_error]. apply IH. lia.
+Qed.
+
+(** the byte [d+1] positions back from the end of the first [ip] input bytes *)
+Lemma nthN_rev_firstn (x : list N) ip d :
+  (ip <= length x)%nat -> (d < ip)%nat ->
+  nthN (rev (firstn ip x)) (N.of_nat d) = nth_error x (ip - 1 - d).
+Proof.
+  intros Hi Hd. rewrite nthN_nth_error.
+  assert (HL : length (firstn ip x) = ip) by (rewrite firstn_length; lia).
+  rewrite (nth_error_nth' (rev (firstn ip x)) 0) by (rewrite rev_length; lia).
+  rewrite rev_nth by lia. rewrite HL.
+  rewrite <- (nth_error_nth' (firstn ip x) 0) by lia.
+  rewrite nth_error_firstn_lt by lia. f_equal. lia.
+Qed.
+
+(** LZ77 match: if the [len] bytes at [ip] equal the [len] bytes [off] positions earlier, the overlapping
+    copy (offset [off], length [len]) appended to the first [ip] bytes gives the first [ip+len] bytes *)
+Lemma ocopy_match (x : list N) off : forall len ip,
+  (1 <= off)%nat -> (off <= ip)%nat -> (ip + len <= length x)%nat ->
+  (forall k, (k < len)%nat -> nth_error x (ip - off + k) = nth_error x (ip + k)) ->
+  ocopy len (N.of_nat (off - 1)) (rev (firstn ip x)) = Some (rev (firstn (ip + len) x)).
+Proof.
+  induction len as [|len IH]; intros ip H1 H2 H3 HM.
+  - rewrite Nat.add_0_r. reflexivity.
+  - cbn [ocopy]. rewrite nthN_rev_firstn by lia.
+    replace (ip - 1 - (off - 1))%nat with (ip - off + 0)%nat by lia.
+    rewrite HM by lia. rewrite Nat.add_0_r.
+    destruct (nth_error x ip) as [b|] eqn:E; [|apply nth_error_None in E; lia].
+    replace (b :: rev (firstn ip x)) with (rev (firstn (S ip) x))
+      by (rewrite (firstn_succ_nth _ _ _ E), rev_app_distr; reflexivity).
+    replace (ip + S len)%nat with (S ip + len)%nat by lia.
+    apply IH; try lia.
+    intros k Hk. replace (S ip - off + k)%nat with (ip - off + S k)%nat by lia.
+    replace (S ip + k)%nat with (ip + S k)%nat by lia. apply HM. lia.
+Qed.
+
+Lemma skipn_nth_error {A} (x : list A) p k : nth_error (skipn p x) k = nth_error x (p + k).
+Proof.
+  revert x. induction p as [|p IH]; intros x; [reflexivity|].
+  destruct x as [|a t]; [destruct k; reflexivity|]. cbn [skipn Nat.add nth_error]. apply IH.
+Qed.
+
+Lemma rd32_some x p : (p + 4 <= length x)%nat -> exists v, rd32 x p = Some v.
+Proof.
+  intros H. unfold rd32.
+  assert (L : length (skipn p x) = (length x - p)%nat) by apply skipn_length.
+  destruct (skipn p x) as [|a [|b [|c [|d r]]]]; simpl in L; try lia. eauto.
+Qed.
+
+(** equal 32-bit words mean the four bytes are equal *)
+Lemma rd32_eq x p q v : bytes x -> rd32 x p = Some v -> rd32 x q = Some v ->
+  forall k, (k < 4)%nat -> nth_error x (p + k) = nth_error x (q + k).
+Proof.
+  intros B Hp Hq k Hk. unfold rd32 in *. rewrite <- !skipn_nth_error.
+  pose proof (bytes_skipn p x B) as Bp. pose proof (bytes_skipn q x B) as Bq.
+  destruct (skipn p x) as [|a0 [|a1 [|a2 [|a3 ra]]]]; try discriminate.
+  destruct (skipn q x) as [|b0 [|b1 [|b2 [|b3 rb]]]]; try discriminate.
+  assert (Hq' : le_val [a0; a1; a2; a3] = le_val [b0; b1; b2; b3]) by congruence.
+  clear Hp Hq. cbn [le_val] in Hq'.
+  repeat (apply bytes_cons in Bp; destruct Bp as [? Bp]).
+  repeat (apply bytes_cons in Bq; destruct Bq as [? Bq]).
+  assert (a0 = b0 /\ a1 = b1 /\ a2 = b2 /\ a3 = b3) as (-> & -> & -> & ->) by lia.
+  destruct k as [|[|[|[|k]]]]; try reflexivity. lia.
+Qed.
+
+Lemma slice_app_firstn (x : list N) a i :
+  (a <= i)%nat -> firstn a x ++ slice x a i = firstn i x.
+Proof.
+  intros H. unfold slice. replace i with (a + (i - a))%nat at 2 by lia.
+  rewrite <- (firstn_skipn a x) at 3. rewrite firstn_app.
+  rewrite firstn_length.
+  destruct (Nat.le_gt_cases a (length x)) as [L|G].
+  - rewrite Nat.min_l by lia. rewrite firstn_firstn, Nat.min_r by lia.
+    replace (a + (i - a) - a)%nat with (i - a)%nat by lia. reflexivity.
+  - rewrite (skipn_all2 x) by lia. rewrite !firstn_nil, !app_nil_r.
+    rewrite firstn_firstn. f_equal. lia.
+Qed.
+
+Lemma slice_length (x : list N) a i : (a <= i)%nat -> (i <= length x)%nat -> length (slice x a i) = (i - a)%nat.
+Proof. intros H1 H2. unfold slice. rewrite firstn_length, skipn_length. lia. Qed.
+
+Lemma bytes_slice x a i : bytes x -> bytes (slice x a i).
+Proof. intros B. unfold slice. apply bytes_firstn, bytes_skipn, B. Qed.
+
